@@ -43,6 +43,7 @@ INTRINSICS = {
     "vmaxq_u8": (2, lambda a, b: max(a, b)), "vminq_u8": (2, lambda a, b: min(a, b)),
     "vmvnq_u8": (1, lambda a: (~a) & 0xFF),
 }
+LOADS = ("_mm_loadu_si128", "_mm_lddqu_si128", "_mm256_loadu_si256", "vld1q_u8", "vld1q_s8")
 IDENT = ("vreinterpretq_u8_s8", "vreinterpretq_s8_u8", "transmute", "clone")
 
 
@@ -93,7 +94,16 @@ class Lanes:
         path = tuple(e[1] for e in p[1] if isinstance(e, list) and e[0] == ".")
         return ("in", "SELF" if who == 1 else "RHS", path)
 
-    def _expr_of_operand(self, fn, o, depth, seen):
+    def _expr_of_operand(self, fn, o, depth, seen, at=None):
+        if o["k"] != "const" and op_local(o) is not None:
+            sc = fn.src(op_local(o))
+            if sc[0] == "const" and op_int(sc[1]) is not None:
+                return ("const", op_int(sc[1]) & 0xFF)
+            if fn.locals[op_local(o)]["ty"] in ("i8", "u8", "i32", "u32", "i64", "u64", "usize", "isize"):
+                from .analysis import affine_of
+                af = affine_of(fn, o)
+                if af is not None and af[0] == 0:
+                    return ("const", af[1] & 0xFF)
         if o["k"] == "const":
             v = op_int(o)
             if v is None:
@@ -105,7 +115,7 @@ class Lanes:
             return pe
         if p[1] and not all(e == "*" or (isinstance(e, list) and e[0] == ".") for e in p[1]):
             raise Unsupported("indexing in a straight-line wrapper")
-        e = self._expr_of_local(fn, p[0], depth, seen)
+        e = self._expr_of_local(fn, p[0], depth, seen, at)
         path = tuple(x[1] for x in p[1] if isinstance(x, list) and x[0] == ".")
         for i in path:
             if e[0] == "pair":
@@ -114,26 +124,38 @@ class Lanes:
                 e = e[1]
         return e
 
-    def _expr_of_local(self, fn, l, depth, seen):
+    def _expr_of_local(self, fn, l, depth, seen, at=None):
         if l in seen:
             raise Unsupported("cyclic definition")
         seen = seen | {l}
         if 1 <= l <= fn.argc and not fn.defs.get(l):
             return ("in", "SELF" if l == 1 else "RHS", ())
         d = fn.single_def(l)
+        if d is None and at is not None:
+            # a re-assigned local: the definition that dominates the point of use
+            cands = [x for x in fn.defs.get(l, []) if fn.dominates(x[1], at) and x[1] != at]
+            if len(cands) == 1:
+                d = cands[0]
         if d is None:
             raise Unsupported(f"local _{l} of {fn.id} has no unique definition (not straight-line)")
+        at = d[1]
         if d[0] == "call":
             t = d[2]
+            if t["callee"].rsplit("::", 1)[-1] in LOADS:
+                return ("in", "SELF", ())
             it = intrinsic_of(t["callee"])
-            args = [self._expr_of_operand(fn, a, depth, seen) for a in t["args"]]
+            args = [self._expr_of_operand(fn, a, depth, seen, at) for a in t["args"]]
             if it:
                 return ("intr", it[0], tuple(args))
             nm = t["callee"].rsplit("::", 1)[-1]
+            if nm in LOADS:
+                return ("in", "SELF", ())
             if nm in IDENT:
                 return args[0]
             if nm.endswith(("set1_epi8", "vdupq_n_u8", "vdupq_n_s8")):
                 return args[0]
+            if nm.endswith(("setzero_si128", "setzero_si256")):
+                return ("const", 0)
             if t["callee"] in self.prog.fns:
                 try:
                     inner = self.summary(t["callee"], depth + 1)
@@ -155,12 +177,12 @@ class Lanes:
         rv = d[3]["rv"]
         k = rv["k"]
         if k == "use" or (k == "cast" and rv["ck"] in ("Transmute", "PtrToPtr")):
-            return self._expr_of_operand(fn, rv["op"], depth, seen)
+            return self._expr_of_operand(fn, rv["op"], depth, seen, at)
         if k == "ref":
             pe = self._param_expr(fn, rv["p"])
             if pe:
                 return pe
-            e = self._expr_of_local(fn, rv["p"][0], depth, seen)
+            e = self._expr_of_local(fn, rv["p"][0], depth, seen, at)
             for x in rv["p"][1]:
                 if isinstance(x, list) and x[0] == ".":
                     if e[0] == "pair":
@@ -169,7 +191,7 @@ class Lanes:
                         e = e[1]
             return e
         if k == "agg":
-            fs = [self._expr_of_operand(fn, x, depth, seen) for x in rv["f"]]
+            fs = [self._expr_of_operand(fn, x, depth, seen, at) for x in rv["f"]]
             if rv["ak"] == "tuple" and len(fs) == 2:
                 return ("pair", fs[0], fs[1])
             if rv["ak"] == "adt" and len(fs) == 1:
